@@ -303,7 +303,9 @@ func runC13(c *Ctx) {
 	// well-formed JWK (where one is required): kty present; RSA needs n and e; other key types need crv and x
 	if jv := c.Method("document", "JWK", "Validate"); jv != nil {
 		c.jwkValidateRules("C13.G1", "document.JWK.Validate", jv, func(m string) pathPred {
-			return func(s string) bool { return s == "(document.JWK)."+m+"($0)" }
+			// the member read through its accessor, or read the way the accessor reads it
+			body := c.accessorBody(c.Method("document", "JWK", m))
+			return func(s string) bool { return s == "(document.JWK)."+m+"($0)" || (body != "" && s == body) }
 		})
 	} else {
 		c.Unresolved("C13.G1", "(document.JWK).Validate")
@@ -347,6 +349,19 @@ func (c *Ctx) setOps(v ssa.Value, env Env, depth int, look, fill map[string]bool
 			}
 		}
 	}
+}
+
+// accessorBody: what a one-exit accessor method returns, rendered with its receiver as $0 (for recognising code
+// that reads the member the way the accessor does instead of calling it).
+func (c *Ctx) accessorBody(f *ssa.Function) string {
+	if f == nil || f.Blocks == nil || len(f.Params) != 1 {
+		return ""
+	}
+	rs := returnsOf(f)
+	if len(rs) != 1 || len(rs[0].Results) != 1 {
+		return ""
+	}
+	return c.Path(returnedValue(rs[0], 0), Env{f.Params[0]: "$0"})
 }
 
 // helpersOf: the unexported functions of f's package that f calls statically (transitively, up to depth levels), in
